@@ -34,7 +34,7 @@ func init() {
 	fw.Register(&fw.Property{
 		ID:    "C19",
 		Level: "exploration",
-		Rule: "cases = PRNG histories on instances holding one database: local writes, loads after restart, snapshot loads and replication of single- and multi-writer logs, including replicas that already hold local entries when a longer foreign branch arrives, and local writes whose local-heads cache write fails (injected datastore failure). Every SetProgress/SetMax transition is observed through the replinfo hooks (old -> new, under the lock); (progress, max, len, maxClock) are read at every rest point. " +
+		Rule: "cases = PRNG histories on instances holding one database: local writes, loads after restart, snapshot loads and replication of single- and multi-writer logs, including replicas that already hold local entries when a longer foreign branch arrives, and local writes whose local-heads cache write fails (injected datastore failure). Every SetProgress/SetMax transition is observed through the replinfo hooks (old -> new, under the lock); (progress, max, len, maxClock) are read at every rest point. After every history two announcements are injected that carry a writer's new entry (its honest announcement dropped) together with a non-writer's head naming it as parent, whose Lamport time lies 5-25 above the sum of the newest time and the replica's entry count; the monitors keep running and the rest oracle is applied afterwards. " +
 			"distinct = hash(step script); non-trivial = >= 2 writers, >= 20 transitions observed and >= 1 replica merged a foreign branch while holding local entries",
 		Assumptions: []string{"one database per instance (cross-database effects are C09)"},
 		Cases:       c19Cases,
